@@ -39,6 +39,8 @@ const (
 	fC02CleanConv   = "F-C02-data-clean-ignores-converter-name"
 	fC02NegSeqMulti = "F-C02-negated-sequence-across-converter-outputs"
 	fC02InvSeqNoOut = "F-C02-inverted-sequence-without-converter-output"
+	fC02SubNegHost  = "F-C02-subquery-negated-host"
+	fC02SubSecond   = "F-C02-second-subquery-ignored"
 )
 
 // ---------------------------------------------------------------------------------------------
@@ -636,6 +638,8 @@ type c02Search struct {
 	restrict  []uint // nil: no ID restriction
 	extract   bool
 	excluded  []string
+	// accept, when set, replaces the evaluation of the parsed normal form as the definition of "satisfies the query"
+	accept func(v *c02Vis) (bool, error)
 }
 
 func (sp *c02Search) text() string {
@@ -1043,7 +1047,13 @@ func c02Check(w *c02World, sp *c02Search, q *query.Query, cs c02CondShape) (stri
 		if restrict != nil && !restrict.IsSet(uint(v.s.ID)) {
 			continue
 		}
-		ok, err := vq.EvalNF(q.Conditions, v.s, env)
+		var ok bool
+		var err error
+		if sp.accept != nil {
+			ok, err = sp.accept(v)
+		} else {
+			ok, err = vq.EvalNF(q.Conditions, v.s, env)
+		}
 		if err != nil {
 			res.discard = "reference-error"
 			return "", res
@@ -1733,12 +1743,41 @@ func c02FixedCases(name string) []c02FixedCase {
 			{files: [][]*vidx.SRec{f}, conv: conv, unionOnly: true, search: &c02Search{raw: "sdata.c1:cc then (cport:1: or -cdata.c1:x or sport:0:)"}},
 			{files: [][]*vidx.SRec{f}, conv: conv, search: &c02Search{raw: "sdata.c1:zz then -cdata.c1:x", limit: 100}},
 		}
+	case fC02SubNegHost:
+		// every client address (10.0.0.1) differs from the server address of the sub-query stream (10.0.0.2): all match
+		f := []*vidx.SRec{c02FixedRec(1, 0, 1001, 80, "", &next), c02FixedRec(2, 1000000, 1002, 80, "", &next)}
+		all := func(*c02Vis) (bool, error) { return true, nil }
+		none := func(*c02Vis) (bool, error) { return false, nil }
+		return []c02FixedCase{
+			{files: [][]*vidx.SRec{f}, search: &c02Search{raw: "@s:id:1 -chost:@s:shost@", limit: 100, accept: all}},
+			{files: [][]*vidx.SRec{f}, search: &c02Search{raw: "@s:id:1 -chost:@s:chost@", limit: 100, accept: none}},
+			{files: [][]*vidx.SRec{f}, search: &c02Search{raw: "@s:id:1 chost:@s:chost@", limit: 100, accept: all}},
+		}
+	case fC02SubSecond:
+		// sub-query a selects stream 1 (client port 1001), sub-query b stream 2 (client port 1002)
+		f := []*vidx.SRec{c02FixedRec(1, 0, 1001, 80, "", &next), c02FixedRec(2, 1000000, 1002, 80, "", &next), c02FixedRec(3, 2000000, 1003, 80, "", &next)}
+		only := func(ids ...uint64) func(*c02Vis) (bool, error) {
+			return func(v *c02Vis) (bool, error) {
+				for _, id := range ids {
+					if v.s.ID == id {
+						return true, nil
+					}
+				}
+				return false, nil
+			}
+		}
+		return []c02FixedCase{
+			{files: [][]*vidx.SRec{f}, search: &c02Search{raw: "@a:cport:1001 @b:cport:1002 id:@a:id@ id:@b:id@", limit: 100, accept: only()}},
+			{files: [][]*vidx.SRec{f}, search: &c02Search{raw: "@a:cport:1001 @b:cport:1002 id:@a:id@+@b:id@", limit: 100, accept: only(3)}},
+			{files: [][]*vidx.SRec{f}, search: &c02Search{raw: "@a:cport:1001 @b:cport:9 id:@a:id@", limit: 100, accept: only()}},
+			{files: [][]*vidx.SRec{f}, search: &c02Search{raw: "@b:cport:1002 id:@b:id@: @a:cport:1001 -id:@a:id@", limit: 100, accept: only(2, 3)}},
+		}
 	}
 	return nil
 }
 
 func TestVerifC02Fixed(t *testing.T) {
-	names := []string{fC02Double, fC02EarlyTie, fC02NegImpTag, fC02InlineAlias, fC02CleanConv, fC02NegSeqMulti, fC02InvSeqNoOut}
+	names := []string{fC02Double, fC02EarlyTie, fC02NegImpTag, fC02InlineAlias, fC02CleanConv, fC02NegSeqMulti, fC02InvSeqNoOut, fC02SubNegHost, fC02SubSecond}
 	vlib.Fixed(t, "C02", names, func(name string) (string, any) {
 		cases := c02FixedCases(name)
 		if len(cases) == 0 {
